@@ -52,6 +52,85 @@ def lemma_lenGLs(spec, LT, LLT, xs, tag):
     )
 
 
+def lemma_Lrest(spec, LT, xs, tag):
+    """L-rest: if no item of R is tolerated by R (the greedy layer of R is empty) then the
+    filtered remainder FN(R, |R|) is R itself; hence GR(cs, stop+1) = GR(cs, stop).
+    Three inductions over the prefix length, each with one unfolding per step:
+      (B) len FT(R, n) <= len FT(R, N) for n <= N        (downward, as d = N - n)
+      (C) if len FT(R, N) = 0 then len FN(R, n) = n and FN(R, n)[k] = R[k] for k < n <= N
+    and list extensionality for FN(R, N) = R."""
+    R = z3.Const("R_lr", LT.sort)
+    N = LT.len(R)
+    d, n, k = z3.Ints("d_lr n_lr k_lr")
+    FT = lambda m: spec.FT(*xs, R, m)
+    FN = lambda m: spec.FN(*xs, R, m)
+    B = lambda dd: z3.Implies(z3.And(0 <= dd, dd <= N), LT.len(FT(N - dd)) <= LT.len(FT(N)))
+    r1 = _prove(f"L-rest{tag}.B", [("base d=0", [d == 0], B(d), []), ("step", [d >= 0, B(d)], B(d + 1), [FT(N - d)])])
+    empty = LT.len(FT(N)) == 0
+    allB = B(N - n)  # instance of (B) at n
+    allB1 = B(N - (n + 1))
+    C = lambda m: z3.Implies(z3.And(0 <= m, m <= N), z3.And(LT.len(FN(m)) == m, z3.Implies(z3.And(0 <= k, k < m), LT.at(FN(m), k) == LT.at(R, k))))
+    r2 = _prove(
+        f"L-rest{tag}.C",
+        [
+            ("base n=0", [n == 0, empty], C(n), []),
+            ("step", [n >= 0, empty, allB, allB1, C(n)], C(n + 1), [FT(n + 1), FN(n + 1), LT.at(LT.snoc(FN(n), LT.at(R, n)), k)]),
+        ],
+    )
+    # extensionality: same length, same elements
+    kk = LT.diff(FN(N), R)
+    Ck = z3.substitute(C(N), [(k, kk)])
+    r3 = _prove(f"L-rest{tag}.ext", [("FN(R,|R|) = R", [empty, Ck, LT.ext_facts(FN(N), R)], FN(N) == R, [])])
+    # consequence used by the extended partition: GR(cs, stop+1) = GR(cs, stop)
+    cs = z3.Const("cs_lr", LT.sort)
+    stp = spec.stop(*xs, cs)
+    G = spec.GR(*xs, cs, stp)
+    inst = z3.Implies(LT.len(spec.FT(*xs, G, LT.len(G))) == 0, spec.FN(*xs, G, LT.len(G)) == G)  # the lemma at R := GR(cs, stop)
+    r4 = _prove(f"L-rest{tag}.GR", [("GR(cs,stop+1) = GR(cs,stop)", [inst], spec.GR(*xs, cs, stp + 1) == G, [spec.GR(*xs, cs, stp + 1)])])
+    rs = (r1, r2, r3, r4)
+    st = "proved" if all(r["status"] == "proved" for r in rs) else ("failed" if any(r["status"] == "failed" for r in rs) else "undecided")
+    return {"name": f"lemma.L-rest{tag} (empty layer => the remainder is unchanged)", "status": st, "parts": [p for r in rs for p in r["parts"]], "seconds": sum(r["seconds"] for r in rs)}
+
+
+def lemma_Lstop(spec, LT, xs, tag):
+    """L-stop (existence part): some greedy layer with index <= |cs| is empty.
+      (S1) len FT(R,n) + len FN(R,n) = n                      (induction on n)
+      (S2) if the layers 0..k-1 are all non-empty then len GR(cs,k) <= |cs| - k   (induction on k,
+           the hypothesis about the layers is the defined predicate AllNonEmpty)
+      (S3) so the layers 0..|cs| cannot all be non-empty (a list has no negative length).
+    That a FIRST such index exists -- what `stop` denotes -- is the least-number principle."""
+    from pyvc import iterm as IT
+
+    EX = [f"def.stop{tag}.1", f"def.stop{tag}.2"]  # the axioms that postulate `stop` are not used here
+
+    R = z3.Const("R_ls", LT.sort)
+    cs = z3.Const("cs_ls", LT.sort)
+    n, k = z3.Ints("n_ls k_ls")
+    FT = lambda r, m: spec.FT(*xs, r, m)
+    FN = lambda r, m: spec.FN(*xs, r, m)
+    S1 = lambda r, m: z3.Implies(z3.And(0 <= m, m <= LT.len(r)), LT.len(FT(r, m)) + LT.len(FN(r, m)) == m)
+    r1 = _prove(f"L-stop{tag}.S1", [("base n=0", [n == 0], S1(R, n), []), ("step", [n >= 0, S1(R, n)], S1(R, n + 1), [FT(R, n + 1), FN(R, n + 1)])], exclude=EX)
+    GR = lambda j: spec.GR(*xs, cs, j)
+    GLlen = lambda j: LT.len(FT(GR(j), LT.len(GR(j))))
+    ANE, _w = IT.defpred_all(f"AllNonEmpty{tag}", [s_.sort() for s_ in xs] + [LT.sort, L.Int], lambda x: x[-1], lambda x, j: LT.len(spec.FT(*x[:-2], spec.GR(*x[:-1], j), LT.len(spec.GR(*x[:-1], j)))) > 0, lambda x, j: spec.GR(*x[:-1], j))
+    ane = lambda m: ANE(*xs, cs, m)
+    S2 = lambda m: z3.Implies(z3.And(0 <= m, ane(m)), LT.len(GR(m)) <= LT.len(cs) - m)
+    inst = S1(GR(k), LT.len(GR(k)))  # (S1) at R := GR(cs,k), n := its length
+    r2 = _prove(
+        f"L-stop{tag}.S2",
+        [
+            ("base k=0", [k == 0], S2(k), [GR(0)]),
+            ("step", [k >= 0, S2(k), inst], S2(k + 1), [GR(k + 1), GR(k)]),
+        ],
+        exclude=EX,
+    )
+    top = LT.len(cs) + 1
+    r3 = _prove(f"L-stop{tag}.S3", [("some layer 0..|cs| is empty", [S2(top)], z3.Not(ane(top)), [])], exclude=EX)
+    rs = (r1, r2, r3)
+    st = "proved" if all(r["status"] == "proved" for r in rs) else ("failed" if any(r["status"] == "failed" for r in rs) else "undecided")
+    return {"name": f"lemma.L-stop{tag} (some greedy layer with index <= |cs| is empty)", "status": st, "parts": [p for r in rs for p in r["parts"]], "seconds": sum(r["seconds"] for r in rs)}
+
+
 def lemma_mem_snoc(elem_sort):
     LT = L.list_theory(elem_sort)
     mem, memw = L.mem_theory(elem_sort)
@@ -521,6 +600,10 @@ LEMMAS = {
     "RangeList": lemma_RangeList,
     "L2a": lemma_L2a,
     "lenGLs": lambda: lemma_lenGLs(PS, LCnd, LLCnd, (), ""),
+    "L-stop": lambda: lemma_Lstop(PS, LCnd, (), ""),
+    "L-stopk": lambda: lemma_Lstop(PSK, LInt, (z3.Const("val_ls", z3.ArraySort(L.Int, L.Cnd)),), "k"),
+    "L-rest": lambda: lemma_Lrest(PS, LCnd, (), ""),
+    "L-restk": lambda: lemma_Lrest(PSK, LInt, (z3.Const("val_lr", z3.ArraySort(L.Int, L.Cnd)),), "k"),
     "lenGLsk": lambda: lemma_lenGLs(PSK, LInt, LLInt, (z3.Const("val_l", z3.ArraySort(L.Int, L.Cnd)),), "k"),
     "mem.snoc.Int": lambda: lemma_mem_snoc(L.Int),
     "mem.nil.Int": lambda: lemma_mem_nil(L.Int),
